@@ -337,6 +337,48 @@ impl Family for HugeMessages {
     }
 }
 
+/// messages of every length 0..=1100 and within 12 bytes of every power of two up to 2^17, at three
+/// sites: a private buffer size or threshold an implementation may introduce lies somewhere
+struct MessageLengths {
+    lens: Vec<usize>,
+}
+const LEN_SITES: [usize; 3] = [3, 7, 2];
+impl MessageLengths {
+    fn new(quick: bool) -> Self {
+        let mut lens: Vec<usize> = (0..=1100).collect();
+        for k in 11..=17 {
+            for d in -12i64..=12 {
+                lens.push(((1i64 << k) + d) as usize);
+            }
+        }
+        if !quick {
+            lens.extend(1101..=9000);
+        }
+        MessageLengths { lens }
+    }
+}
+impl Family for MessageLengths {
+    fn name(&self) -> String {
+        "error-messages-of-every-length".into()
+    }
+    fn len(&self) -> u64 {
+        (self.lens.len() * LEN_SITES.len()) as u64
+    }
+    fn run(&self, idx: u64, st: &mut Stats) -> Result<(), Violation> {
+        let d = digits(idx, &[self.lens.len() as u64, LEN_SITES.len() as u64]);
+        st.nontrivial += 1;
+        st.bump("error_messages_of_every_length");
+        let n = self.lens[d[0] as usize];
+        let msg: Vec<u8> = (0..n).map(|i| b' ' + ((i * 7 + n) % 90) as u8).collect();
+        run_site((n * 13) % KINDS.len(), LEN_SITES[d[1] as usize], msg, None, st)
+    }
+    fn describe(&self, idx: u64) -> J {
+        let d = digits(idx, &[self.lens.len() as u64, LEN_SITES.len() as u64]);
+        let n = self.lens[d[0] as usize];
+        json!({"kind": KINDS[(n * 13) % KINDS.len()].0, "site": SITES[LEN_SITES[d[1] as usize]], "message_len": n})
+    }
+}
+
 struct Tables;
 impl Family for Tables {
     fn name(&self) -> String {
@@ -420,7 +462,7 @@ pub fn build(quick: bool) -> Check {
     Check {
         id: "C13",
         level: "model_checking",
-        rule: format!("messages that make the ERR payload end exactly at, just below and beyond the packet limit of 2^24-1 bytes at five sites; every ErrorKind variant of the tree under test ({} variants, list regenerated by build.rs) x 13 reporting sites (init via COM_INIT_DB and USE, prepare, query error fresh / after complete_one / after finish_one, finish_error after 0 rows / rows / a complete unended row in text mode, binary finish_error after 0 rows / rows, binary error after finish_one, query error after a served SET NAMES latin1 statement) x message classes (empty, 1 byte, 512 bytes, 5000 bytes, 70000 bytes in thorough, invalid UTF-8, leading '#', embedded NUL, leading 0xFF, valid UTF-8 with all characters below U+0100, valid UTF-8 with wider characters), each followed by a sentinel PING; every 97th (thorough: every) kind x all sites x 6 messages (up to 70000 bytes, beyond the max_packet_size these clients announce) again for clients that answered the greeting with the pre-4.1 layout, with CLIENT_PROTOCOL_41 alone and a latin1 collation, and with libmysqlclient's full set (db, plugin, attributes). Every 53rd (thorough: 7th) kind x all sites x 4 messages again with the reporting callback returning Err afterwards: the ERR must still have been delivered and run_on returns the callback's error. Oracle: the decoded ERR carries (kind as u16, kind.sqlstate(), message bytes) and mysql_common reads the same; per variant: code <-> kind both ways, (name, code, SQLSTATE) equal the pinned golden table, codes equal the mysql client crate's independent table, 46 documented (code, SQLSTATE) anchors.", KINDS.len()),
+        rule: format!("messages of every length 0..1100 (thorough: 0..9000) and within 12 bytes of every power of two to 2^17 at three sites; messages that make the ERR payload end exactly at, just below and beyond the packet limit of 2^24-1 bytes at five sites; every ErrorKind variant of the tree under test ({} variants, list regenerated by build.rs) x 13 reporting sites (init via COM_INIT_DB and USE, prepare, query error fresh / after complete_one / after finish_one, finish_error after 0 rows / rows / a complete unended row in text mode, binary finish_error after 0 rows / rows, binary error after finish_one, query error after a served SET NAMES latin1 statement) x message classes (empty, 1 byte, 512 bytes, 5000 bytes, 70000 bytes in thorough, invalid UTF-8, leading '#', embedded NUL, leading 0xFF, valid UTF-8 with all characters below U+0100, valid UTF-8 with wider characters), each followed by a sentinel PING; every 97th (thorough: every) kind x all sites x 6 messages (up to 70000 bytes, beyond the max_packet_size these clients announce) again for clients that answered the greeting with the pre-4.1 layout, with CLIENT_PROTOCOL_41 alone and a latin1 collation, and with libmysqlclient's full set (db, plugin, attributes). Every 53rd (thorough: 7th) kind x all sites x 4 messages again with the reporting callback returning Err afterwards: the ERR must still have been delivered and run_on returns the callback's error. Oracle: the decoded ERR carries (kind as u16, kind.sqlstate(), message bytes) and mysql_common reads the same; per variant: code <-> kind both ways, (name, code, SQLSTATE) equal the pinned golden table, codes equal the mysql client crate's independent table, 46 documented (code, SQLSTATE) anchors.", KINDS.len()),
         assumptions: vec![
             "trusted base for SQLSTATEs beyond the 46 anchors: the table pinned in /verif/data equals MariaDB's published one (as the generator comment in errorcodes.rs states); variants added later are checked for self-consistency only".into(),
         ],
@@ -434,9 +476,10 @@ pub fn build(quick: bool) -> Check {
             Box::new(AtEverySequenceId::new(quick)),
             Box::new(super::c18::TlsErrors::new(quick)),
             Box::new(HugeMessages { lens: if quick { vec![MAXP - 10, MAXP - 9, MAXP - 8] } else { vec![MAXP - 11, MAXP - 10, MAXP - 9, MAXP - 8, MAXP, MAXP + 1, 2 * MAXP - 9] } }),
+            Box::new(MessageLengths::new(quick)),
             Box::new(Tables),
             Box::new(super::aftermath::Aftermath { prop: "C13" }),
         ],
-        required: vec!["error_messages_beyond_one_packet", "aftermath_recovered", "reported_then_failed", "errors_to_other_handshakes", "errors_after_resultset_header", "golden_rows_checked", "client_crate_rows_checked", "anchors_checked"],
+        required: vec!["error_messages_of_every_length", "error_messages_beyond_one_packet", "aftermath_recovered", "reported_then_failed", "errors_to_other_handshakes", "errors_after_resultset_header", "golden_rows_checked", "client_crate_rows_checked", "anchors_checked"],
     }
 }
